@@ -4,6 +4,10 @@ import json, os
 HERE = os.path.dirname(os.path.dirname(os.path.abspath(__file__)))
 
 CLAIMED = {
+ "C18": dict(level="exploration", ref="§4 C18",
+   technique="deterministic simulation of the library's only nondeterministic input: the global RNG is pinned through its seed seam (one run seed = one replayable sample); seeded search over seeds x configurations x call orders with deterministic per-call checks and 7-sigma statistical checks per pooled sample",
+   text="Each run seeds the library's RNG, issues 50-400 initializer / RandU / RandN calls from 1-3 clients in a scheduler-chosen order and pools the draws per configuration. Every call is checked for shape, tracking (observable through back-propagation), support with the documented bound, the Full constant and freshness; every pool of >= 20000 elements for mean, variance, KS distance, row-major lag-1 autocorrelation and cross-call correlation at 7 standard errors of the configured distribution. A failing run replays exactly from its seed. Sampling; no fault kind applies.",
+   note="Trusted: textbook moments / CDFs in props/c18.go. The seam self-test (same seed, same tensor) runs at the start of every run; failure is exit 2."),
  "C16": dict(level="exploration", ref="§4 C16",
    technique="deterministic simulation: user and operator clients interleaved at call granularity on one FC layer, pointer-swap fault at arbitrary instants (incl. between Forward and BackPropagate), invalid-call faults; reference model of the slots and of which parameter objects were current at each forward",
    text="Seeded histories in which an operator replaces W / B through the Weights() pointers at arbitrary instants while a user runs Forward and back-propagates weighted outputs. Every forward is compared with the affine formula at the model's current parameters (and a bitwise row-independence twin), Weights() must keep returning the same live addresses, and after every back-propagation the gradients must sit on the parameter objects that were current at forward time, with the parameters' shape and the formula's derivative; a dual-mode reference separates the known broadcast-mean finding. Sampling, not proof.",
